@@ -61,11 +61,18 @@ pub enum BvHow {
     PosDup,
     /// `BitVector::default()` / `T::default()` (empty only)
     Default,
+    /// bools collected from an iterator with an inexact size hint (`loose::loose_iter`)
+    BoolsLoose(u8),
+    /// positions (usize) collected from an iterator with an inexact size hint
+    PosLoose(u8),
+    /// `BitVectorMut::new()`, then the bits in pieces: `extend` from exact and loose bool
+    /// iterators, single pushes for short pieces; then `into()`
+    ExtendPieces(u8),
 }
 
 impl BvHow {
     pub fn is_positions(self) -> bool {
-        matches!(self, BvHow::PosUsize | BvHow::PosU32 | BvHow::PosU64 | BvHow::PosI64 | BvHow::PosDup)
+        matches!(self, BvHow::PosUsize | BvHow::PosU32 | BvHow::PosU64 | BvHow::PosI64 | BvHow::PosDup | BvHow::PosLoose(_))
     }
 }
 
@@ -146,6 +153,23 @@ pub fn plain_bv(how: BvHow, bits: &[bool]) -> BitVector {
             v.into_iter().collect()
         }
         BvHow::Default => BitVector::default(),
+        BvHow::BoolsLoose(mode) => crate::loose::loose_iter(bits.to_vec(), mode).collect(),
+        BvHow::PosLoose(mode) => crate::loose::loose_iter(positions_of(bits), mode).collect(),
+        BvHow::ExtendPieces(mode) => {
+            let mut m = BitVectorMut::new();
+            for (j, piece) in crate::loose::pieces(bits, mode as u64).into_iter().enumerate() {
+                match (j + mode as usize) % 3 {
+                    0 if piece.len() < 40 => {
+                        for b in piece {
+                            m.push(b);
+                        }
+                    }
+                    1 => m.extend(piece),
+                    _ => m.extend(crate::loose::loose_iter(piece, mode.wrapping_mul(37).wrapping_add(j as u8))),
+                }
+            }
+            m.into()
+        }
     }
 }
 
@@ -187,6 +211,12 @@ impl BitsVal {
                 (BitsKind::Da1, BvHow::PosU64) => return BitsVal::Da1(positions_of(bits).into_iter().map(|x| x as u64).collect()),
                 (BitsKind::Da0, BvHow::PosI64) => return BitsVal::Da0(positions_of(bits).into_iter().map(|x| x as i64).collect()),
                 (BitsKind::Da1, BvHow::PosI64) => return BitsVal::Da1(positions_of(bits).into_iter().map(|x| x as i64).collect()),
+                (BitsKind::Da0, BvHow::BoolsLoose(mode)) => return BitsVal::Da0(crate::loose::loose_iter(bits.to_vec(), mode).collect()),
+                (BitsKind::Da1, BvHow::BoolsLoose(mode)) => return BitsVal::Da1(crate::loose::loose_iter(bits.to_vec(), mode).collect()),
+                (BitsKind::Da0, BvHow::PosLoose(mode)) => return BitsVal::Da0(crate::loose::loose_iter(positions_of(bits), mode).collect()),
+                (BitsKind::Da1, BvHow::PosLoose(mode)) => return BitsVal::Da1(crate::loose::loose_iter(positions_of(bits), mode).collect()),
+                (BitsKind::Bvm, BvHow::BoolsLoose(mode)) => return BitsVal::Bvm(crate::loose::loose_iter(bits.to_vec(), mode).collect()),
+                (BitsKind::Bvm, BvHow::PosLoose(mode)) => return BitsVal::Bvm(crate::loose::loose_iter(positions_of(bits), mode).collect()),
                 (BitsKind::Bvm, BvHow::Bools) => return BitsVal::Bvm(bits.iter().copied().collect()),
                 (BitsKind::Bvm, BvHow::PosUsize) => return BitsVal::Bvm(positions_of(bits).into_iter().collect()),
                 _ => {}
